@@ -354,12 +354,16 @@ func (l pyList) Operator(operator Operator, operand pyObject) pyObject {
 	case Add:
 		l2, ok := operand.(pyList)
 		if !ok {
-			if l2, ok := operand.(pyFrozenList); ok {
-				return slices.Clip(append(l, l2.pyList...))
+			fl, ok := operand.(pyFrozenList)
+			if !ok {
+				panic("Cannot add list and " + operand.Type())
 			}
-			panic("Cannot add list and " + operand.Type())
+			l2 = fl.pyList
 		}
-		return slices.Clip(append(l, l2...))
+		// Always build a new list; appending to l could write into (or simply return)
+		// storage that is shared with l or with an earlier result of l + something.
+		ret := make(pyList, 0, len(l)+len(l2))
+		return append(append(ret, l...), l2...)
 	case In, NotIn:
 		for _, item := range l {
 			if item == operand {
